@@ -1,6 +1,6 @@
 (* C13 - Context lifecycle: usable only from entry to end of teardown, entered once. *)
 From Coq Require Import String List Arith.
-From Asphalt Require Import Ctx.ResModel Ctx.ResProofs Ctx.ResInv Ctx.ResHist Ctx.GuardTie Gen.Gen_guards.
+From Asphalt Require Import Ctx.ResModel Ctx.ResProofs Ctx.ResInv Ctx.ResHist Ctx.GuardTie Gen.Gen_guards Td.Lifecycle Gen.Gen_lifecycle.
 Import ListNotations.
 
 (* (T) the table of lifecycle states in which each guarded method is accepted, extracted from
@@ -72,3 +72,17 @@ Theorem C13_open_child_reported : forall s c x,
   exists ran, snd (step s (At c AExitEnd)) = Exited ran true.
 Proof. exact open_child_reported. Qed.
 Print Assumptions C13_open_child_reported.
+
+(* a child context leaves its parent's registry of open children as the very last step of its
+   exit, after its teardown callbacks and after the current context has been reset *)
+Theorem C13_child_deregistered_last :
+  unwinding true = [E_teardown_callbacks; E_reset_current; E_child_deregister].
+Proof. exact unwinding_child. Qed.
+Print Assumptions C13_child_deregistered_last.
+
+(* __aexit__ sets `closing` before unwinding and `closed` (and checks for open children) in a
+   finally clause, i.e. also when the unwinding raises *)
+Theorem C13_exit_statement_order :
+  aexit_closing_before_stack = true /\ aexit_closed_in_finally = true /\ aexit_child_check_in_finally = true.
+Proof. exact exit_statement_order. Qed.
+Print Assumptions C13_exit_statement_order.
